@@ -233,6 +233,81 @@ def ctor_value(x: int) -> float:
     return mk(x, 1.5).norm()
 
 
+# ---- name collisions between nested helpers and module-level definitions (C11-b), and a
+# temporary + a >=5-character user variable live across one block boundary (C11-a)
+@guppy
+def helper(x: int, y: int) -> int:
+    return x + y
+
+
+@guppy
+def uses_helper(x: int) -> int:
+    return helper(x, 1)
+
+
+@guppy
+def uses_helper_twice(x: int) -> int:
+    return helper(helper(x, 2), x)
+
+
+@guppy
+def shadow_rec(x: int) -> int:
+    def helper(n: int) -> int:          # non-capturing, recursive, other signature
+        if n > 0:
+            return helper(n - 1)
+        return 0
+    return helper(x)
+
+
+@guppy
+def shadow_rec_same(x: int) -> int:
+    def helper(n: int, m: int) -> int:  # non-capturing, recursive, same signature
+        if n > 0:
+            return helper(n - 1, m)
+        return m
+    return helper(x, x)
+
+
+@guppy
+def shadow_nonrec(x: int) -> int:
+    def helper(n: int) -> int:          # non-capturing, not recursive
+        return n + 1
+    return helper(x)
+
+
+@guppy
+def shadow_capt(x: int) -> int:
+    def helper(n: int) -> int:          # capturing, recursive
+        if n > 0:
+            return helper(n - 1)
+        return x
+    return helper(x)
+
+
+@guppy
+def shadow_capt_nonrec(x: int) -> int:
+    def plain(n: int) -> int:           # capturing, not recursive, shadows `plain`
+        return n + x
+    return plain(x)
+
+
+@guppy
+def sum_total(n: int) -> int:
+    total = 0
+    for i in range(n):
+        total += i
+    return total
+
+
+@guppy
+def span_bounds(n: int, bounds: int) -> int:
+    lower = 0
+    for i in range(n):
+        if i < bounds:
+            lower += i
+    return lower + bounds
+
+
 POOL = {
     "plain": plain, "branchy": branchy, "noret": noret, "bad_type": bad_type,
     "bad_linear": bad_linear, "bad_name": bad_name, "ident": ident, "pair": pair,
@@ -243,15 +318,19 @@ POOL = {
     "ct_badret": ct_badret, "caller": caller, "caller_of_bad": caller_of_bad,
     "caller_of_ct_raises": caller_of_ct_raises, "quantum": quantum, "arr": arr,
     "use_overload": use_overload, "main_entry": main_entry, "burn1": burn1, "nest": nest,
-    "ctor_value": ctor_value,
+    "ctor_value": ctor_value, "helper": helper, "uses_helper": uses_helper,
+    "uses_helper_twice": uses_helper_twice, "shadow_rec": shadow_rec,
+    "shadow_rec_same": shadow_rec_same, "shadow_nonrec": shadow_nonrec,
+    "shadow_capt": shadow_capt, "shadow_capt_nonrec": shadow_capt_nonrec,
+    "sum_total": sum_total, "span_bounds": span_bounds,
 }
 
 # Hand-written abstraction of the pool for the Engine model (validated against the observed
 # ENGINE.checked sets on every run): direct dependencies among pool definitions, whether the
 # definition's own check fails, whether it is traced (comptime) and whether its trace raises.
-def _m(deps=(), check_ok=True, comptime=False, trace_ok=True, is_type=False):
+def _m(deps=(), check_ok=True, comptime=False, trace_ok=True, is_type=False, nested=()):
     return {"deps": list(deps), "check_ok": check_ok, "comptime": comptime, "trace_ok": trace_ok,
-            "is_type": is_type}
+            "is_type": is_type, "nested": list(nested)}
 
 
 META = {
@@ -266,4 +345,8 @@ META = {
     "caller_of_ct_raises": _m(["ct_raises"]), "quantum": _m(), "arr": _m(),
     "use_overload": _m(["plain", "branchy"]), "main_entry": _m(["use_struct", "caller"]),
     "burn1": _m(), "nest": _m(), "ctor_value": _m(["Pt"]),
+    "helper": _m(), "uses_helper": _m(["helper"]), "uses_helper_twice": _m(["helper"]),
+    "shadow_rec": _m(nested=["helper"]), "shadow_rec_same": _m(nested=["helper"]),
+    "shadow_nonrec": _m(), "shadow_capt": _m(),
+    "shadow_capt_nonrec": _m(), "sum_total": _m(), "span_bounds": _m(),
 }
